@@ -217,6 +217,7 @@ impl SimDriver {
             }
             if !peer.owed.is_empty() && (plan.peer.auto_ack || settle || peer.owed[0] == Owed::ConnAck) {
                 let dev_now = !settle
+                    && peer.connected
                     && plan.peer.deviation != AckDeviation::None
                     && !peer.deviation_done
                     && peer.acks_sent >= plan.peer.deviation_at;
@@ -383,7 +384,9 @@ impl SimDriver {
                     st.peers[c].final_acks_sent += 1;
                 }
                 st.peers[c].acks_sent += 1;
-                st.last_ack[c] = Some((pkt.clone(), bytes.clone()));
+                if pkt.pid().is_some() {
+                    st.last_ack[c] = Some((pkt.clone(), bytes.clone()));
+                }
                 let peer = &mut st.peers[c];
                 self.peer_send(peer, c, Some(pkt), bytes, None);
             }
